@@ -254,6 +254,17 @@ class Obj:
                     top2 = zz.topk(2, dim=0).values
                     margin = float((top2[0] - top2[1]).min())
             return ['fwd', nz, margin]
+        if op[0] == 'snap':
+            # copy.deepcopy of the selector (of the whole SuperNet for a combiner): every later op acts on the COPY
+            import copy
+            self.original = (self.q, self.obs())
+            if self.kind == 'comb':
+                self.top = copy.deepcopy(self.top)
+                self.q = [m for m in self.top.seed.modules() if type(m).__name__ == 'SuperNetCombiner'][0]
+            else:
+                self.q = copy.deepcopy(self.q)
+                self.top = self.q
+            return None
         raise ValueError(op)
 
 
@@ -319,6 +330,10 @@ def exec_case(spec):
         before = st
         try:
             mop = o.apply(op, tab)
+            if mop is None:                 # snapshot: nothing happens for the sampler model, the copy is in the original's state
+                if o.obs() != before:
+                    res['fails'].append(('%s:snapshot:copy-differs-from-the-original' % ('supernet' if o.kind == 'comb' else 'mps'), 'deep copy holds %r, original %r' % (o.obs(), before), i))
+                continue
             st = o.obs()
             res['steps'].append(st)
         except TypeError as ex:
@@ -329,8 +344,8 @@ def exec_case(spec):
                 res['fails'].append(('op-raised', 'EXC:TypeError %s on %r' % (str(ex)[:150], op), i))
             break
         except Exception as ex:
-            if pytorch_inference_limit(ex):
-                res['cut'] = i
+            if pytorch_inference_limit(ex) or (isinstance(ex, RuntimeError) and 'deepcopy protocol' in str(ex)):
+                res['cut'] = i          # PyTorch restrictions (inference tensors in autograd; deepcopy of a tensor with a grad_fn)
                 break
             res['mops'].append([op[0]])
             res['steps'].append(None)
@@ -343,6 +358,13 @@ def exec_case(spec):
                 res['fails'].append((key, what, i))
     res['tab'] = tab
     res['final'] = st
+    if getattr(o, 'original', None) is not None:
+        q0, st0 = o.original
+        now = {'name': q0.sample_alpha.__name__, 'hard': bool(q0.hard_softmax), 'training': bool(q0.training), 'theta': o.cols(q0.theta_alpha), 'alpha': o.cols(q0.alpha)}
+        changed = [k for k in now if now[k] != st0[k]]
+        if changed:
+            res['fails'].append(('%s:snapshot:ops-on-the-copy-changed-the-original' % ('supernet' if o.kind == 'comb' else 'mps'),
+                                 'the ORIGINAL changed (%s) while only its deep copy was used: theta_alpha %r -> %r' % (', '.join(changed), [[float(v) for v in c] for c in st0['theta']], [[float(v) for v in c] for c in now['theta']]), len(spec['ops'])))
     if o.kind == 'comb':
         res['best'] = o.q.best_layer_index()
         if spec.get('export'):
@@ -351,7 +373,7 @@ def exec_case(spec):
             import torch.nn as nn
             try:
                 best = argmax_first(st['alpha'][0])
-                kinds = [op[0] for op in spec['ops'][:len(res['steps'])]]
+                kinds = [op[0] for op in spec['ops'] if op[0] != 'snap'][:len(res['steps'])]
                 last_fwd = max([i for i, k_ in enumerate(kinds) if k_ == 'fwd'], default=-1)
                 last_opt = max([i for i, k_ in enumerate(kinds) if k_ == 'opt'], default=-2)
                 fresh = last_fwd > last_opt
@@ -509,6 +531,26 @@ def specs_config(ctx):
                         if kind == 'comb':
                             sp.update(export=True, fresh=True)
                         out.append(sp)
+    # deep-copied snapshots of a selector / of a SuperNet: copy (after construction or after a no_grad pass), then alpha / mode change on
+    # the COPY and it is evaluated; the copy follows ITS coefficients, the original stays untouched
+    for kind in ('layer', 'chan', 'comb'):
+        for h, g, tr in itertools.product((False, True), repeat=3):
+            for variant in range(2 if ctx.quick else 4):
+                n = rng.randint(2, 8)
+                c = rng.choice([1, 2, 3, 8]) if kind == 'chan' else 1
+                a0, a1 = gen_alpha(rng, n, c), gen_alpha(rng, n, c)
+                for j in range(c):
+                    if argmax_first(a1[j]) == argmax_first(a0[j]):
+                        k, o2 = argmax_first(a1[j]), (argmax_first(a1[j]) + 1 + rng.randrange(n - 1)) % n
+                        a1[j][k], a1[j][o2] = a1[j][o2], a1[j][k]
+                pre = [('fwd', rng.randrange(1 << 30), 'no_grad')] if variant % 2 else []
+                post = [('opt', a1, rng.choice(ROUTES))] + ([('eval',) if tr else ('train',)] if rng.random() < 0.5 else []) + \
+                       [('fwd', rng.randrange(1 << 30), rng.choice(GRAD_MODES[:2])), ('fwd', rng.randrange(1 << 30), rng.choice(GRAD_MODES[:2]))]
+                sp = {'fam': 'snapshot', 'kind': kind, 'n': n, 'c': c, 'ctor': (rng.choice(TEMPS), h, g, False), 'alpha': a0, 'mode': 'train' if tr else 'eval',
+                      'ops': pre + [('snap',)] + post}
+                if kind == 'comb':
+                    sp.update(export=True, fresh=True)
+                out.append(sp)
     # every length / the extreme matrix shapes at least once per tier, in eval mode and hard training
     for n in sizes_l:
         for kind, c in (('layer', 1), ('comb', 1), ('chan', 16), ('chan', 1)):
